@@ -30,7 +30,7 @@ prop("C13",
      rule="stream cases: 1-3 publishers x 1-3 topics x 1-3 subscribers (v3.1.1/v5, Receive Maximum 1/2/unlimited) through clients.Manager over net.Pipe, "
           "20-80 (thorough 50-500) sequence-numbered messages per publisher at QoS 0/1/2 or mixed; the subscriber-side arrival order per "
           "(subscriber, publisher, topic, qos) must be 1,2,3,... and complete. Every 8th case replays the two-worker witness of refute/C13.v on the "
-          "provider (memlockfree or mem) with a stub that holds message 1 until message 2 arrives. Every 8th case is a 'closerace' (a durable subscriber with Receive Maximum 1 and queued QoS 1 messages, its connection ends, "
+          "provider (memlockfree or mem) with a stub that holds message 1 until message 2 arrives. Every 8th case streams to SLOW subscribers (a pipe of 64 bytes, 1 ms per read: the writer is regularly blocked in its Write). Every 8th case is a 'closerace' (a durable subscriber with Receive Maximum 1 and queued QoS 1 messages, its connection ends, "
           "the harness holds PacketsStore open while further messages are routed: the next connection must receive 1..N+K in order), every 8th a 'loadrace' (the same at the reconnect: the start-up load of the backlog is held while fresh messages are routed; QoS 0 and 1). non-trivial = more than one message; distinct by case JSON.",
      level_text="Theorem (coq/props/C13.v): for the number of routing workers found in topics/memlockfree/topics.go and topics/mem/topics.go by the translator "
                 "(coq/gen/Extracted.v, regenerated on every run), under EVERY schedule of the routing workers each subscriber is handed exactly the messages it must get, "
@@ -52,7 +52,8 @@ prop("C04",
      rule="sequences of 3-16 client packets over PUBLISH(qos 0/1/2, id, dup, authorised or not) and PUBREL(id) with ids from a 4-element pool "
           "(20%: 12-element pool; 3% id 0), server Receive Maximum in {1,2,3,10}, protocol v3.1.1 / v5, through clients.Manager; after every packet a "
           "PINGREQ barrier on the publisher and QoS0+QoS1 sentinels to a '#' watcher attribute responses and forwards to that packet. "
-          "non-trivial = contains a repeated QoS 2 id or a PUBREL; distinct by case JSON.",
+          "Every 10th case is PIPELINED: the whole sequence in one write to a connection with 16 bytes of pipe whose client takes 2 ms per read (the broker's writer lags behind its reader), "
+          "all responses compared in wire order (Receive Maximum 100: no termination in the middle). non-trivial = contains a repeated QoS 2 id or a PUBREL; distinct by case JSON.",
      level_text="Theorems (coq/props/C04.v) over the executable model of onPublish/onAck(PUBREL): for every packet sequence, protocol version and Receive Maximum: "
                 "the invariant quota + unreleased = RM with unique ids; QoS 1 -> exactly [PUBACK id; forward]; QoS 2 -> exactly one PUBREC id and no forward at that step; "
                 "PUBREL -> forward + PUBCOMP iff the id is stored, else PUBCOMP 'not found' with no effect; stores = releases + still stored (exactly once); id 0 terminates; "
@@ -66,7 +67,8 @@ prop("C14",
      coq=["model/Alias.v", "proofs/AliasProofs.v", "chk/C14chk.v", "props/C14.v", "refute/C14.v"],
      n={"quick": 400, "thorough": 8000, "search": 1500},
      shrink_fields=["topics", "pkts"],
-     rule="even cases (outbound): subscriber v5 (15%: v3.1.1) announcing Topic Alias Maximum in {0,1,2,5,65535}, 2-21 publishes over 1-8 distinct topics with recurrences; "
+     rule="every 25th case 'resume': a durable v5 subscriber with Topic Alias Maximum 1/2/5 leaves 2-9 aliased QoS 1 messages unacknowledged and reconnects - the retransmissions must decode and resolve against the new connection's empty alias table; "
+          "even cases (outbound): subscriber v5 (15%: v3.1.1) announcing Topic Alias Maximum in {0,1,2,5,65535}, 2-21 publishes over 1-8 distinct topics with recurrences; "
           "observable per received PUBLISH: (topic present?, alias property). odd cases (inbound): server maximum in {0,2,5}, v5 publisher sending 2-13 packets "
           "(plain / binding / alias-only; 35% of sequences contain alias 0, alias > maximum, unbound alias or empty topic without alias), 10% unauthorised topics; "
           "observable: topics routed to a '#' watcher in order, termination and DISCONNECT reason. non-trivial = outbound with max>0 or any inbound; distinct by case JSON.",
@@ -106,7 +108,9 @@ prop("C02", harness="C02",
      shrink_fields=["ops"], shrink_min=1,
      rule=_WRITER_RULE + " For C02 every history contains close/reconnect operations; every 6th has 'flap' operations (reconnect over a pipe of 16 bytes capacity, drop while the broker's writer is blocked mid-retransmission); "
           "a quarter of the reconnects are 'late' operations: the persistence backend is wrapped by a gate (harness/gatepersist.go) that holds the routing worker inside PacketStoreQoS12 for a message routed to the OFFLINE session while the client reconnects - "
-          "to the model: a message handed over while offline, then a reconnect (it must be delivered in that connection).",
+          "to the model: a message handed over while offline, then a reconnect (it must be delivered in that connection). 20% of the offline phases contain a 'restart' (Manager.Stop + Shutdown, a new manager over the same persistence: no event for the writer model). "
+          "12% of the acknowledgements are sent twice and 4% (v5) are refusing PUBRECs for identifiers that were never in flight (events of their own: they must free nothing). Corpus: 'wrap' (131100 deliveries, identifier 65535 stuck), 'bulk' (65540 offline messages), "
+          "'ackorder' (verif hook of package connection: a freed identifier reused inside the release callback).",
      level_text="Theorems (coq/props/C02.v, with the C03 invariant): for every Receive Maximum >= 1 a connected client that acknowledged everything is sent the next pending QoS 1/2 message by the "
                 "next writer round (no stall); everything transmitted and unacknowledged at connection end is queued with its identifier and DUP=1 for unconditional retransmission at reconnect "
                 "and is served first; queued unexpired messages survive in persistence. C02_no_loss (proved, over EVERY guarded history of publish / writer round / acknowledgement / disconnect / reconnect events, every Receive Maximum): "
@@ -237,7 +241,7 @@ prop("C08",
      coq=["model/Trie.v", "model/Deliver.v", "proofs/DeliverProofs.v", "chk/C08chk.v", "props/C08.v", "refute/C08.v"],
      n={"quick": 500, "thorough": 14000, "search": 2000},
      shrink_fields=["subs"], shrink_min=1,
-     rule="4/5 'live': one publish on t/a (QoS 0-2, RETAIN 35%, by the subscribing session itself 30% or by another client; publisher v3.1.1 or v5) against one session (v3.1.1 or v5) holding 1-3 distinct matching "
+     rule="4/5 'live': one publish on t/a (QoS 0-2, RETAIN 35%, by the subscribing session itself 30% or by another client; publisher v3.1.1 or v5 - 35% of the v5 publishers send it alias-only on an alias first bound to another topic and then re-bound) against one session (v3.1.1 or v5) holding 1-3 distinct matching "
           "filters from {t/a, t/+, t/#, #, +/a} with generated granted QoS, No-Local, Retain-As-Published and subscription identifier (v5), overlap option on 40% (then No-Local/RAP uniform); "
           "1/5 'retained': a retained message (QoS 0-2, publisher v3.1.1 or v5) then a new subscription (granted QoS 0-2, Retain Handling 0-2, RAP; v5 subscribers announce a Topic Alias Maximum). "
           "Barrier: QoS0 + QoS1 markers on the publishing connection. Every PUBLISH received is decoded: QoS, RETAIN, DUP, ALL subscription identifiers (raw bytes), topic and payload intact; "
